@@ -116,6 +116,20 @@ class BuildDirs:
         aware of such a directory.
         """
         with self._lock:
+            if self._error_created_dirs:
+                # The caller might have seen a directory in the real file
+                # system that the current build created and then virtually
+                # removed due to an exception in another thread, before we
+                # get around to really removing it. Such a directory does not
+                # exist in the virtual state of the file system.
+                prev_parent = None
+                parent = norm_cased_dir
+                while parent != prev_parent:
+                    if (parent in self._error_created_dirs and
+                            parent not in self._build_dir_counts):
+                        return
+                    prev_parent = parent
+                    parent = os.path.dirname(parent)
             self._handle_dir_exists(norm_cased_dir)
 
     def started_building_file(self, filename, created_dirs):
